@@ -47,22 +47,35 @@ func indexWalk(k ssa.Value) (phi *ssa.Phi, ok bool) {
 		}
 		return nil, false
 	}
+	// one edge carries the start value, every other edge (one per `continue`/loop end) the step
+	shape := func(ph *ssa.Phi, isStart, isStep func(ssa.Value) bool) bool {
+		starts, steps := 0, 0
+		for _, e := range ph.Edges {
+			switch {
+			case isStep(e):
+				steps++
+			case isStart(e):
+				starts++
+			default:
+				return false
+			}
+		}
+		return starts == 1 && steps >= 1
+	}
 	if base, ok := plusOne(k); ok {
-		if ph, ok := base.(*ssa.Phi); ok && len(ph.Edges) == 2 {
-			for i := 0; i < 2; i++ {
-				if constIs(ph.Edges[i], -1) && ph.Edges[1-i] == k {
-					return ph, true
-				}
+		if ph, ok := base.(*ssa.Phi); ok && len(ph.Edges) >= 2 {
+			if shape(ph, func(v ssa.Value) bool { return constIs(v, -1) }, func(v ssa.Value) bool { return v == k }) {
+				return ph, true
 			}
 		}
 	}
-	if ph, ok := k.(*ssa.Phi); ok && len(ph.Edges) == 2 {
-		for i := 0; i < 2; i++ {
-			if constIs(ph.Edges[i], 0) {
-				if base, ok := plusOne(ph.Edges[1-i]); ok && base == ssa.Value(ph) {
-					return ph, true
-				}
-			}
+	if ph, ok := k.(*ssa.Phi); ok && len(ph.Edges) >= 2 {
+		isStep := func(v ssa.Value) bool {
+			base, ok := plusOne(v)
+			return ok && base == ssa.Value(ph)
+		}
+		if shape(ph, func(v ssa.Value) bool { return constIs(v, 0) }, isStep) {
+			return ph, true
 		}
 	}
 	return nil, false
